@@ -1,6 +1,12 @@
 import CelmaVerif.Lemmas.FixedStringC11W3
 import CelmaVerif.Lemmas.FixedStringC11Cmp
 import CelmaVerif.Lemmas.FixedStringC11Find
+import CelmaVerif.Lemmas.FixedStringC11RFind2
+/-
+  C11 at the level of the operation language, observers (second part): the C-string and single-character
+  overloads of compare / starts_with / ends_with / contains, `c_str()`/`data()`/`operator<<`, the partial
+  compares, element access (`*it`, `operator[]`, `front`, `back`) and the whole find family.
+-/
 namespace CelmaVerif.FixedString
 open CelmaVerif
 variable {c cu : Cfg} {w : World}
@@ -179,7 +185,7 @@ theorem c11_cmpCCPC (hw : WFW c cu w) (p n : Nat) (a : List Byte) (n2 : Nat) (ha
   rw [if_neg (by rw [abs_length hw.1]; omega), bindR_ok]
 
 /-- reading the buffer at an index up to and including the terminator -/
-theorem get1_abs_getD {s : FStr} (hs : WF c s) {i : Nat} (hi : i ≤ s.len) :
+theorem w4_get1_abs_getD {s : FStr} (hs : WF c s) {i : Nat} (hi : i ≤ s.len) :
     get1 s.buf i = .ok ((abs s).getD i 0) := by
   have := hs.1; have := hs.2.1
   unfold get1 abs
@@ -190,9 +196,9 @@ theorem get1_abs_getD {s : FStr} (hs : WF c s) {i : Nat} (hi : i ≤ s.len) :
     subst this
     rw [if_neg hlt, hs.2.2]; rfl
 
-theorem headD_eq_getD (l : List Nat) : l.headD 0 = l.getD 0 0 := by cases l <;> rfl
+theorem w4_headD_eq_getD (l : List Nat) : l.headD 0 = l.getD 0 0 := by cases l <;> rfl
 
-theorem getLastD_eq_getD (l : List Nat) : l.getLastD 0 = l.getD (l.length - 1) 0 := by
+theorem w4_getLastD_eq_getD (l : List Nat) : l.getLastD 0 = l.getD (l.length - 1) 0 := by
   rw [List.getLastD_eq_getLast?, List.getLast?_eq_getElem?, List.getD_eq_getElem?_getD]
 
 theorem c11_itDeref (hc : CfgOK c) (hw : WFW c cu w) (k : Nat) (hd : inDomain (npos c) w (.itDeref k) = true) :
@@ -216,7 +222,7 @@ theorem c11_idx (hw : WFW c cu w) (i : Nat) (hd : inDomain (npos c) w (.idx i) =
   obtain ⟨r, h1, rfl, rfl⟩ := obs_inv h
   simp only [inDomain, abs_length hw.1, decide_eq_true_eq] at hd
   unfold index at h1
-  rw [get1_abs_getD hw.1 hd] at h1; cases h1
+  rw [w4_get1_abs_getD hw.1 hd] at h1; cases h1
   exact c11_obs hw.1 (by simp only [spec])
 
 theorem c11_front (hw : WFW c cu w) : C11Holds c cu w .front := by
@@ -224,8 +230,8 @@ theorem c11_front (hw : WFW c cu w) : C11Holds c cu w .front := by
   simp only [step] at h
   obtain ⟨r, h1, rfl, rfl⟩ := obs_inv h
   unfold front at h1
-  rw [get1_abs_getD hw.1 (Nat.zero_le _)] at h1; cases h1
-  exact c11_obs hw.1 (by simp only [spec, headD_eq_getD])
+  rw [w4_get1_abs_getD hw.1 (Nat.zero_le _)] at h1; cases h1
+  exact c11_obs hw.1 (by simp only [spec, w4_headD_eq_getD])
 
 theorem c11_back (hw : WFW c cu w) : C11Holds c cu w .back := by
   intro w' o h
@@ -234,8 +240,8 @@ theorem c11_back (hw : WFW c cu w) : C11Holds c cu w .back := by
   have hidx : (if w'.s.len = 0 then 0 else w'.s.len - 1) = (abs w'.s).length - 1 := by
     rw [abs_length hw.1]; split <;> omega
   unfold back at h1
-  rw [hidx, get1_abs_getD hw.1 (by rw [abs_length hw.1]; omega)] at h1; cases h1
-  exact c11_obs hw.1 (by simp only [spec, getLastD_eq_getD])
+  rw [hidx, w4_get1_abs_getD hw.1 (by rw [abs_length hw.1]; omega)] at h1; cases h1
+  exact c11_obs hw.1 (by simp only [spec, w4_getLastD_eq_getD])
 
 theorem c11_find_f (hw : WFW c cu w) (p : Option Nat) (hd : inDomain (npos c) w (.search .find (.f p)) = true) :
     C11Holds c cu w (.search .find (.f p)) := by
@@ -272,7 +278,7 @@ theorem c11_find_ppc (hw : WFW c cu w) (a : List Byte) (p n : Nat)
   rw [findN_abs hw.1 _ hn hpos] at h1; cases h1
   exact c11_obs hw.1 (by simp only [spec, needleText, needlePos])
 
-theorem hasNul_mem {a : List Byte} (h : hasNul a = true) : (0 : Byte) ∈ a := by
+theorem w4_hasNul_mem {a : List Byte} (h : hasNul a = true) : (0 : Byte) ∈ a := by
   unfold hasNul at h; exact List.contains_iff_mem.mp h
 
 theorem c11_find_pp (hw : WFW c cu w) (a : List Byte) (p : Option Nat)
@@ -282,7 +288,7 @@ theorem c11_find_pp (hw : WFW c cu w) (a : List Byte) (p : Option Nat)
   obtain ⟨r, h1, rfl, rfl⟩ := obs_inv h
   simp only [searchStep] at h1
   simp only [inDomain, needleText, Bool.and_eq_true] at hd
-  obtain ⟨n, hn, hlt, hof⟩ := cstrlen_of_mem (hasNul_mem hd.1.2)
+  obtain ⟨n, hn, hlt, hof⟩ := cstrlen_of_mem (w4_hasNul_mem hd.1.2)
   have hpos : 0 < n := by have := of_decide_eq_true hd.1.1; rw [hof, List.length_take] at this; omega
   unfold findP at h1
   rw [hn, bindR_ok, findN_abs hw.1 _ (show n ≤ a.length by omega) hpos] at h1; cases h1
@@ -297,14 +303,14 @@ theorem c11_find_c (hc : CfgOK c) (hw : WFW c cu w) (ch : Byte) (p : Option Nat)
   rw [findCh_abs hc hw.1 ch hpW] at h1; cases h1
   exact c11_obs hw.1 (by simp only [spec, needleText, needlePos])
 
-theorem noNul_not_mem {a : List Byte} (h : hasNul a = false) : (0 : Byte) ∉ a := by
+theorem w4_noNul_not_mem {a : List Byte} (h : hasNul a = false) : (0 : Byte) ∉ a := by
   unfold hasNul at h
   intro hm
   rw [List.contains_iff_mem.mpr hm] at h
   cases h
 
 /-- `strlen` finds the first NUL -/
-theorem cstrlenAux_of_nul : ∀ (a : List Nat) (n k : Nat), a[n]? = some 0 → (0 : Nat) ∉ a.take n →
+theorem w4_cstrlenAux_of_nul : ∀ (a : List Nat) (n k : Nat), a[n]? = some 0 → (0 : Nat) ∉ a.take n →
     cstrlenAux a k = .ok (k + n)
   | [], n, k, h, _ => by simp at h
   | x :: xs, 0, k, h, _ => by
@@ -316,23 +322,23 @@ theorem cstrlenAux_of_nul : ∀ (a : List Nat) (n k : Nat), a[n]? = some 0 → (
     have hx : x ≠ 0 := fun e => hn (by rw [e]; exact List.mem_cons_self)
     have hn' : (0 : Nat) ∉ xs.take n := fun m => hn (List.mem_cons_of_mem _ m)
     unfold cstrlenAux
-    rw [if_neg hx, cstrlenAux_of_nul xs n (k + 1) h' hn']
+    rw [if_neg hx, w4_cstrlenAux_of_nul xs n (k + 1) h' hn']
     congr 1; omega
 
 /-- a well-formed string whose text has no NUL is a C string of its length -/
-theorem wf_cstrlen {s : FStr} (hs : WF c s) (h0 : (0 : Byte) ∉ abs s) : cstrlen s.buf = .ok s.len := by
+theorem w4_wf_cstrlen {s : FStr} (hs : WF c s) (h0 : (0 : Byte) ∉ abs s) : cstrlen s.buf = .ok s.len := by
   unfold cstrlen
-  rw [cstrlenAux_of_nul s.buf s.len 0 hs.2.2 h0, Nat.zero_add]
+  rw [w4_cstrlenAux_of_nul s.buf s.len 0 hs.2.2 h0, Nat.zero_add]
 
 /-- `c_str()` of a std::string without NUL characters -/
-theorem cstr_cstrlen {d : Str} (h0 : (0 : Byte) ∉ d) : cstrlen (d ++ [0]) = .ok d.length := by
+theorem w4_cstr_cstrlen {d : Str} (h0 : (0 : Byte) ∉ d) : cstrlen (d ++ [0]) = .ok d.length := by
   unfold cstrlen
-  rw [cstrlenAux_of_nul (d ++ [0]) d.length 0 (by simp) (by rw [List.take_left' rfl]; exact h0), Nat.zero_add]
+  rw [w4_cstrlenAux_of_nul (d ++ [0]) d.length 0 (by simp) (by rw [List.take_left' rfl]; exact h0), Nat.zero_add]
 
-theorem ff_noNul {x pat : Str} (h : (!true || !hasNul x && !hasNul pat) = true) :
+theorem w4_ff_noNul {x pat : Str} (h : (!true || !hasNul x && !hasNul pat) = true) :
     (0 : Byte) ∉ x ∧ (0 : Byte) ∉ pat := by
   simp only [Bool.not_true, Bool.false_or, Bool.and_eq_true, Bool.not_eq_true'] at h
-  exact ⟨noNul_not_mem h.1, noNul_not_mem h.2⟩
+  exact ⟨w4_noNul_not_mem h.1, w4_noNul_not_mem h.2⟩
 
 theorem c11_ffo_f (hw : WFW c cu w) (p : Option Nat) (hd : inDomain (npos c) w (.search .ffo (.f p)) = true) :
     C11Holds c cu w (.search .ffo (.f p)) := by
@@ -343,8 +349,8 @@ theorem c11_ffo_f (hw : WFW c cu w) (p : Option Nat) (hd : inDomain (npos c) w (
   simp only [inDomain, needleText, Bool.and_eq_true] at hd
   have ht := hw.2.1
   have hpos : 0 < w'.t.len := by have := abs_length ht; have := of_decide_eq_true hd.1.1; omega
-  obtain ⟨hx, hpat⟩ := ff_noNul hd.2
-  rw [findFirstOfImpl_abs hw.1 (wf_cstrlen ht hpat) _ hpos hx] at h1; cases h1
+  obtain ⟨hx, hpat⟩ := w4_ff_noNul hd.2
+  rw [findFirstOfImpl_abs hw.1 (w4_wf_cstrlen ht hpat) _ hpos hx] at h1; cases h1
   exact c11_obs hw.1 (by simp only [spec, needleText, needlePos, abs, Bool.false_eq_true, if_false])
 
 theorem c11_ffno_f (hw : WFW c cu w) (p : Option Nat) (hd : inDomain (npos c) w (.search .ffno (.f p)) = true) :
@@ -356,8 +362,8 @@ theorem c11_ffno_f (hw : WFW c cu w) (p : Option Nat) (hd : inDomain (npos c) w 
   simp only [inDomain, needleText, Bool.and_eq_true] at hd
   have ht := hw.2.1
   have hpos : 0 < w'.t.len := by have := abs_length ht; have := of_decide_eq_true hd.1.1; omega
-  obtain ⟨hx, hpat⟩ := ff_noNul hd.2
-  rw [findFirstOfImpl_abs hw.1 (wf_cstrlen ht hpat) _ hpos hx] at h1; cases h1
+  obtain ⟨hx, hpat⟩ := w4_ff_noNul hd.2
+  rw [findFirstOfImpl_abs hw.1 (w4_wf_cstrlen ht hpat) _ hpos hx] at h1; cases h1
   exact c11_obs hw.1 (by simp only [spec, needleText, needlePos, abs, if_true])
 
 theorem c11_ffo_s (hw : WFW c cu w) (d : Str) (p : Option Nat)
@@ -368,8 +374,8 @@ theorem c11_ffo_s (hw : WFW c cu w) (d : Str) (p : Option Nat)
   simp only [searchStep] at h1
   simp only [inDomain, needleText, Bool.and_eq_true] at hd
   have hpos : 0 < d.length := of_decide_eq_true hd.1.1
-  obtain ⟨hx, hpat⟩ := ff_noNul hd.2
-  rw [findFirstOfImpl_abs hw.1 (cstr_cstrlen hpat) _ hpos hx, List.take_left' rfl] at h1; cases h1
+  obtain ⟨hx, hpat⟩ := w4_ff_noNul hd.2
+  rw [findFirstOfImpl_abs hw.1 (w4_cstr_cstrlen hpat) _ hpos hx, List.take_left' rfl] at h1; cases h1
   exact c11_obs hw.1 (by simp only [spec, needleText, needlePos, Bool.false_eq_true, if_false])
 
 theorem c11_ffno_s (hw : WFW c cu w) (d : Str) (p : Option Nat)
@@ -380,8 +386,8 @@ theorem c11_ffno_s (hw : WFW c cu w) (d : Str) (p : Option Nat)
   simp only [searchStep] at h1
   simp only [inDomain, needleText, Bool.and_eq_true] at hd
   have hpos : 0 < d.length := of_decide_eq_true hd.1.1
-  obtain ⟨hx, hpat⟩ := ff_noNul hd.2
-  rw [findFirstOfImpl_abs hw.1 (cstr_cstrlen hpat) _ hpos hx, List.take_left' rfl] at h1; cases h1
+  obtain ⟨hx, hpat⟩ := w4_ff_noNul hd.2
+  rw [findFirstOfImpl_abs hw.1 (w4_cstr_cstrlen hpat) _ hpos hx, List.take_left' rfl] at h1; cases h1
   exact c11_obs hw.1 (by simp only [spec, needleText, needlePos, if_true])
 
 theorem c11_ffo_ppc (hw : WFW c cu w) (a : List Byte) (p n : Nat)
@@ -415,9 +421,9 @@ theorem c11_ffo_pp (hw : WFW c cu w) (a : List Byte) (p : Option Nat)
   obtain ⟨r, h1, rfl, rfl⟩ := obs_inv h
   simp only [searchStep] at h1
   simp only [inDomain, needleText, Bool.and_eq_true] at hd
-  obtain ⟨n, hn, hlt, hof⟩ := cstrlen_of_mem (hasNul_mem hd.1.2)
+  obtain ⟨n, hn, hlt, hof⟩ := cstrlen_of_mem (w4_hasNul_mem hd.1.2)
   have hpos : 0 < n := by have := of_decide_eq_true hd.1.1; rw [hof, List.length_take] at this; omega
-  obtain ⟨hx, _⟩ := ff_noNul hd.2
+  obtain ⟨hx, _⟩ := w4_ff_noNul hd.2
   rw [hn, bindR_ok, findFirstOfImpl_abs hw.1 hn _ hpos hx] at h1; cases h1
   exact c11_obs hw.1 (by simp only [spec, needleText, needlePos, hof, Bool.false_eq_true, if_false])
 
@@ -428,9 +434,9 @@ theorem c11_ffno_pp (hw : WFW c cu w) (a : List Byte) (p : Option Nat)
   obtain ⟨r, h1, rfl, rfl⟩ := obs_inv h
   simp only [searchStep] at h1
   simp only [inDomain, needleText, Bool.and_eq_true] at hd
-  obtain ⟨n, hn, hlt, hof⟩ := cstrlen_of_mem (hasNul_mem hd.1.2)
+  obtain ⟨n, hn, hlt, hof⟩ := cstrlen_of_mem (w4_hasNul_mem hd.1.2)
   have hpos : 0 < n := by have := of_decide_eq_true hd.1.1; rw [hof, List.length_take] at this; omega
-  obtain ⟨hx, _⟩ := ff_noNul hd.2
+  obtain ⟨hx, _⟩ := w4_ff_noNul hd.2
   rw [hn, bindR_ok, findFirstOfImpl_abs hw.1 hn _ hpos hx] at h1; cases h1
   exact c11_obs hw.1 (by simp only [spec, needleText, needlePos, hof, if_true])
 
@@ -448,6 +454,226 @@ theorem c11_ffno_c (hw : WFW c cu w) (ch : Byte) (p : Option Nat) : C11Holds c c
   obtain ⟨r, h1, rfl, rfl⟩ := obs_inv h
   simp only [searchStep] at h1
   rw [findFirstOfCh_abs hw.1] at h1; cases h1
+  exact c11_obs hw.1 (by simp only [spec, needleText, needlePos, if_true])
+
+/-! ### the backward searches -/
+
+theorem w4_rpos_dom {p : Option Nat} {n big : Nat} (h : (p == none || decide (p.getD 0 < n)) = true) :
+    p.getD big = big ∨ p.getD big < n := by
+  cases p with
+  | none => exact Or.inl rfl
+  | some q => right; simpa using h
+
+theorem c11_rfind_f (hc : CfgOK c) (hw : WFW c cu w) (p : Option Nat)
+    (hd : inDomain (npos c) w (.search .rfind (.f p)) = true) : C11Holds c cu w (.search .rfind (.f p)) := by
+  intro w' o h
+  simp only [step] at h
+  obtain ⟨r, h1, rfl, rfl⟩ := obs_inv h
+  simp only [searchStep] at h1
+  simp only [inDomain, needleText, Bool.and_eq_true] at hd
+  have ht := hw.2.1
+  have hpos : 0 < w'.t.len := by have := abs_length ht; have := of_decide_eq_true hd.1.1; omega
+  rw [rfindN_abs hc hw.1 _ (by have := ht.1; have := ht.2.1; omega) hpos] at h1; cases h1
+  exact c11_obs hw.1 (by simp only [spec, needleText, needlePos, abs])
+
+theorem c11_rfind_s (hc : CfgOK c) (hw : WFW c cu w) (d : Str) (p : Option Nat)
+    (hd : inDomain (npos c) w (.search .rfind (.s d p)) = true) : C11Holds c cu w (.search .rfind (.s d p)) := by
+  intro w' o h
+  simp only [step] at h
+  obtain ⟨r, h1, rfl, rfl⟩ := obs_inv h
+  simp only [searchStep] at h1
+  simp only [inDomain, needleText, Bool.and_eq_true] at hd
+  have hpos : 0 < d.length := of_decide_eq_true hd.1.1
+  rw [rfindN_abs hc hw.1 _ (by simp) hpos, List.take_left' rfl] at h1; cases h1
+  exact c11_obs hw.1 (by simp only [spec, needleText, needlePos])
+
+theorem c11_rfind_ppc (hc : CfgOK c) (hw : WFW c cu w) (a : List Byte) (p n : Nat)
+    (hd : inDomain (npos c) w (.search .rfind (.ppc a p n)) = true) :
+    C11Holds c cu w (.search .rfind (.ppc a p n)) := by
+  intro w' o h
+  simp only [step] at h
+  obtain ⟨r, h1, rfl, rfl⟩ := obs_inv h
+  simp only [searchStep] at h1
+  simp only [inDomain, needleText, Bool.and_eq_true] at hd
+  obtain ⟨k, hk, hlt, hof⟩ := cstrlen_of_mem (w4_hasNul_mem hd.2.1)
+  have hn : n ≤ a.length := of_decide_eq_true hd.1.2
+  have hpos : 0 < n := by have := of_decide_eq_true hd.1.1; rw [List.length_take] at this; omega
+  have hle : n ≤ k := by have := of_decide_eq_true hd.2.2; rw [hof, List.length_take] at this; omega
+  rw [rfindPN_abs hc hw.1 hk hlt _ hpos hle] at h1; cases h1
+  exact c11_obs hw.1 (by simp only [spec, needleText, needlePos])
+
+theorem c11_rfind_pp (hc : CfgOK c) (hw : WFW c cu w) (a : List Byte) (p : Option Nat)
+    (hd : inDomain (npos c) w (.search .rfind (.pp a p)) = true) : C11Holds c cu w (.search .rfind (.pp a p)) := by
+  intro w' o h
+  simp only [step] at h
+  obtain ⟨r, h1, rfl, rfl⟩ := obs_inv h
+  simp only [searchStep] at h1
+  simp only [inDomain, needleText, Bool.and_eq_true] at hd
+  obtain ⟨k, hk, hlt, hof⟩ := cstrlen_of_mem (w4_hasNul_mem hd.1.2)
+  have hpos : 0 < k := by have := of_decide_eq_true hd.1.1; rw [hof, List.length_take] at this; omega
+  rw [rfindP_abs hc hw.1 hk hlt _ hpos] at h1; cases h1
+  exact c11_obs hw.1 (by simp only [spec, needleText, needlePos])
+
+theorem c11_rfind_c (hc : CfgOK c) (hw : WFW c cu w) (ch : Byte) (p : Option Nat)
+    (hd : inDomain (npos c) w (.search .rfind (.c ch p)) = true) : C11Holds c cu w (.search .rfind (.c ch p)) := by
+  intro w' o h
+  simp only [step] at h
+  obtain ⟨r, h1, rfl, rfl⟩ := obs_inv h
+  simp only [searchStep] at h1
+  simp only [inDomain, needleText, Bool.and_eq_true] at hd
+  have hch : ch ≠ 0 := bne_iff_ne.mp hd.2.1.1
+  have hp := w4_rpos_dom (big := npos c) hd.2.1.2
+  rw [abs_length hw.1] at hp
+  rw [rfindCh_abs hc hw.1 ch hch hp] at h1; cases h1
+  exact c11_obs hw.1 (by simp only [spec, needleText, needlePos])
+
+
+theorem w4_lpos_dom {p : Option Nat} {n big : Nat}
+    (h : (p == none || decide (p.getD 0 < n) && p.getD 0 != big) = true) : p.getD big = big ∨ p.getD big < n := by
+  cases p with
+  | none => exact Or.inl rfl
+  | some q => right; simp at h; exact h.1
+
+theorem c11_flo_f (hc : CfgOK c) (hw : WFW c cu w) (p : Option Nat)
+    (hd : inDomain (npos c) w (.search .flo (.f p)) = true) : C11Holds c cu w (.search .flo (.f p)) := by
+  intro w' o h
+  simp only [step] at h
+  obtain ⟨r, h1, rfl, rfl⟩ := obs_inv h
+  simp only [searchStep] at h1
+  simp only [inDomain, needleText, Bool.and_eq_true] at hd
+  have ht := hw.2.1
+  have hpos : 0 < w'.t.len := by have := abs_length ht; have := of_decide_eq_true hd.1.1; omega
+  obtain ⟨hx, hpat⟩ := w4_ff_noNul hd.2.1
+  have hp := w4_lpos_dom (big := npos c) hd.2.2
+  rw [abs_length hw.1] at hp
+  rw [findLastOfImpl_abs hc hw.1 (w4_wf_cstrlen ht hpat) hpos hx hp] at h1; cases h1
+  exact c11_obs hw.1 (by simp only [spec, needleText, needlePos, abs, Bool.false_eq_true, if_false])
+
+theorem c11_flo_s (hc : CfgOK c) (hw : WFW c cu w) (d : Str) (p : Option Nat)
+    (hd : inDomain (npos c) w (.search .flo (.s d p)) = true) : C11Holds c cu w (.search .flo (.s d p)) := by
+  intro w' o h
+  simp only [step] at h
+  obtain ⟨r, h1, rfl, rfl⟩ := obs_inv h
+  simp only [searchStep] at h1
+  simp only [inDomain, needleText, Bool.and_eq_true] at hd
+  have hpos : 0 < d.length := of_decide_eq_true hd.1.1
+  obtain ⟨hx, hpat⟩ := w4_ff_noNul hd.2.1
+  have hp := w4_lpos_dom (big := npos c) hd.2.2
+  rw [abs_length hw.1] at hp
+  rw [findLastOfImpl_abs hc hw.1 (w4_cstr_cstrlen hpat) hpos hx hp, List.take_left' rfl] at h1; cases h1
+  exact c11_obs hw.1 (by simp only [spec, needleText, needlePos, Bool.false_eq_true, if_false])
+
+theorem c11_flo_ppc (hw : WFW c cu w) (a : List Byte) (p n : Nat)
+    (hd : inDomain (npos c) w (.search .flo (.ppc a p n)) = true) :
+    C11Holds c cu w (.search .flo (.ppc a p n)) := by
+  intro w' o h
+  simp only [step] at h
+  obtain ⟨r, h1, rfl, rfl⟩ := obs_inv h
+  simp only [searchStep] at h1
+  simp only [inDomain, needleText, Bool.and_eq_true] at hd
+  have hn : n ≤ a.length := of_decide_eq_true hd.1.2
+  have hpos : 0 < n := by have := of_decide_eq_true hd.1.1; rw [List.length_take] at this; omega
+  have hp : p < w'.s.len := by have := of_decide_eq_true hd.2.2; rw [abs_length hw.1] at this; exact this
+  rw [findLastOfPN_abs hw.1 hn hpos hp] at h1; cases h1
+  exact c11_obs hw.1 (by simp only [spec, needleText, needlePos, Bool.false_eq_true, if_false])
+
+theorem c11_flo_pp (hc : CfgOK c) (hw : WFW c cu w) (a : List Byte) (p : Option Nat)
+    (hd : inDomain (npos c) w (.search .flo (.pp a p)) = true) : C11Holds c cu w (.search .flo (.pp a p)) := by
+  intro w' o h
+  simp only [step] at h
+  obtain ⟨r, h1, rfl, rfl⟩ := obs_inv h
+  simp only [searchStep] at h1
+  simp only [inDomain, needleText, Bool.and_eq_true] at hd
+  obtain ⟨k, hk, hlt, hof⟩ := cstrlen_of_mem (w4_hasNul_mem hd.1.2)
+  have hpos : 0 < k := by have := of_decide_eq_true hd.1.1; rw [hof, List.length_take] at this; omega
+  obtain ⟨hx, _⟩ := w4_ff_noNul hd.2.1
+  have hp := w4_lpos_dom (big := npos c) hd.2.2
+  rw [abs_length hw.1] at hp
+  rw [hk, bindR_ok, findLastOfImpl_abs hc hw.1 hk hpos hx hp] at h1; cases h1
+  exact c11_obs hw.1 (by simp only [spec, needleText, needlePos, hof, Bool.false_eq_true, if_false])
+
+theorem c11_flo_c (hc : CfgOK c) (hw : WFW c cu w) (ch : Byte) (p : Option Nat)
+    (hd : inDomain (npos c) w (.search .flo (.c ch p)) = true) : C11Holds c cu w (.search .flo (.c ch p)) := by
+  intro w' o h
+  simp only [step] at h
+  obtain ⟨r, h1, rfl, rfl⟩ := obs_inv h
+  simp only [searchStep] at h1
+  simp only [inDomain, needleText, Bool.and_eq_true] at hd
+  have hp := w4_lpos_dom (big := npos c) hd.2.2
+  rw [abs_length hw.1] at hp
+  have hbig : w'.s.len ≤ npos c := by have := hc.hW; have := hw.1.2.1; unfold npos; omega
+  rw [findLastOfCh_abs hw.1 ch _ _ hp hbig] at h1; cases h1
+  exact c11_obs hw.1 (by simp only [spec, needleText, needlePos, Bool.false_eq_true, if_false])
+
+theorem c11_flno_f (hc : CfgOK c) (hw : WFW c cu w) (p : Option Nat)
+    (hd : inDomain (npos c) w (.search .flno (.f p)) = true) : C11Holds c cu w (.search .flno (.f p)) := by
+  intro w' o h
+  simp only [step] at h
+  obtain ⟨r, h1, rfl, rfl⟩ := obs_inv h
+  simp only [searchStep] at h1
+  simp only [inDomain, needleText, Bool.and_eq_true] at hd
+  have ht := hw.2.1
+  have hpos : 0 < w'.t.len := by have := abs_length ht; have := of_decide_eq_true hd.1.1; omega
+  obtain ⟨hx, hpat⟩ := w4_ff_noNul hd.2.1
+  have hp := w4_lpos_dom (big := npos c) hd.2.2
+  rw [abs_length hw.1] at hp
+  rw [findLastOfImpl_abs hc hw.1 (w4_wf_cstrlen ht hpat) hpos hx hp] at h1; cases h1
+  exact c11_obs hw.1 (by simp only [spec, needleText, needlePos, abs, if_true])
+
+theorem c11_flno_s (hc : CfgOK c) (hw : WFW c cu w) (d : Str) (p : Option Nat)
+    (hd : inDomain (npos c) w (.search .flno (.s d p)) = true) : C11Holds c cu w (.search .flno (.s d p)) := by
+  intro w' o h
+  simp only [step] at h
+  obtain ⟨r, h1, rfl, rfl⟩ := obs_inv h
+  simp only [searchStep] at h1
+  simp only [inDomain, needleText, Bool.and_eq_true] at hd
+  have hpos : 0 < d.length := of_decide_eq_true hd.1.1
+  obtain ⟨hx, hpat⟩ := w4_ff_noNul hd.2.1
+  have hp := w4_lpos_dom (big := npos c) hd.2.2
+  rw [abs_length hw.1] at hp
+  rw [findLastOfImpl_abs hc hw.1 (w4_cstr_cstrlen hpat) hpos hx hp, List.take_left' rfl] at h1; cases h1
+  exact c11_obs hw.1 (by simp only [spec, needleText, needlePos, if_true])
+
+theorem c11_flno_ppc (hw : WFW c cu w) (a : List Byte) (p n : Nat)
+    (hd : inDomain (npos c) w (.search .flno (.ppc a p n)) = true) :
+    C11Holds c cu w (.search .flno (.ppc a p n)) := by
+  intro w' o h
+  simp only [step] at h
+  obtain ⟨r, h1, rfl, rfl⟩ := obs_inv h
+  simp only [searchStep] at h1
+  simp only [inDomain, needleText, Bool.and_eq_true] at hd
+  have hn : n ≤ a.length := of_decide_eq_true hd.1.2
+  have hpos : 0 < n := by have := of_decide_eq_true hd.1.1; rw [List.length_take] at this; omega
+  have hp : p < w'.s.len := by have := of_decide_eq_true hd.2.2; rw [abs_length hw.1] at this; exact this
+  rw [findLastOfPN_abs hw.1 hn hpos hp] at h1; cases h1
+  exact c11_obs hw.1 (by simp only [spec, needleText, needlePos, if_true])
+
+theorem c11_flno_pp (hc : CfgOK c) (hw : WFW c cu w) (a : List Byte) (p : Option Nat)
+    (hd : inDomain (npos c) w (.search .flno (.pp a p)) = true) : C11Holds c cu w (.search .flno (.pp a p)) := by
+  intro w' o h
+  simp only [step] at h
+  obtain ⟨r, h1, rfl, rfl⟩ := obs_inv h
+  simp only [searchStep] at h1
+  simp only [inDomain, needleText, Bool.and_eq_true] at hd
+  obtain ⟨k, hk, hlt, hof⟩ := cstrlen_of_mem (w4_hasNul_mem hd.1.2)
+  have hpos : 0 < k := by have := of_decide_eq_true hd.1.1; rw [hof, List.length_take] at this; omega
+  obtain ⟨hx, _⟩ := w4_ff_noNul hd.2.1
+  have hp := w4_lpos_dom (big := npos c) hd.2.2
+  rw [abs_length hw.1] at hp
+  rw [hk, bindR_ok, findLastOfImpl_abs hc hw.1 hk hpos hx hp] at h1; cases h1
+  exact c11_obs hw.1 (by simp only [spec, needleText, needlePos, hof, if_true])
+
+theorem c11_flno_c (hc : CfgOK c) (hw : WFW c cu w) (ch : Byte) (p : Option Nat)
+    (hd : inDomain (npos c) w (.search .flno (.c ch p)) = true) : C11Holds c cu w (.search .flno (.c ch p)) := by
+  intro w' o h
+  simp only [step] at h
+  obtain ⟨r, h1, rfl, rfl⟩ := obs_inv h
+  simp only [searchStep] at h1
+  simp only [inDomain, needleText, Bool.and_eq_true] at hd
+  have hp := w4_lpos_dom (big := npos c) hd.2.2
+  rw [abs_length hw.1] at hp
+  have hbig : w'.s.len ≤ npos c := by have := hc.hW; have := hw.1.2.1; unfold npos; omega
+  rw [findLastOfCh_abs hw.1 ch _ _ hp hbig] at h1; cases h1
   exact c11_obs hw.1 (by simp only [spec, needleText, needlePos, if_true])
 
 end CelmaVerif.FixedString
